@@ -108,3 +108,20 @@ var Probes = []string{
 func H_Probe(i int) {
 	Entry(Probes[i], 13)
 }
+
+// H_C12names is totality on the name-collision shapes (names that collide with generated subquery names).
+func H_C12names(s int) {
+	vocab := Vocab(5)
+	shape := NameShapes[s]
+	slots := make([]int, len(shape))
+	for i, l := range shape {
+		if l == "?" {
+			slots[i] = -1
+		} else if l == "U" {
+			slots[i] = vocabIndex(vocab, "T")
+		} else {
+			slots[i] = vocabIndex(vocab, l)
+		}
+	}
+	Entry(verif.TokenSeq(vocab, slots), 12)
+}
